@@ -253,7 +253,7 @@ QUERY_ASSUMPTIONS = ["strings inside the declared alphabet (ASCII + Latin-1 lett
 
 REGISTRY = {
     "C01": {
-        "lean_modules": ["C01"],
+        "lean_modules": ["C01", "C01Ops"],
         "run": mk_query_runner(c01_opts, 600, 12000),
         "rule": "importer-loaded datasets (1-4 backends, 0-8 hosts each, all value shapes) x GET requests with generated filter trees "
                 "(every operator x column type class, empty right-hand sides, nested And/Or/Negate incl. double negation, ref and custom-variable columns), both parse modes; "
@@ -319,7 +319,7 @@ REGISTRY = {
         "assumptions": QUERY_ASSUMPTIONS + ["the scripted backend (own parser/evaluator) is trusted", "xxhash32 collisions of different lists are not generated (content comparison added by fix 0ebe0ec makes them harmless)"],
     },
     "C19": {
-        "lean_modules": ["C19"],
+        "lean_modules": ["C19", "C19Snapshot"],
         "run": worldfam.run_c19,
         "rule": "multi-flavour datasets (value shapes of C02) are synchronised from scripted backends, written with the real Exporter into a tarball and loaded with the real importer into a second daemon; "
                 "40 generated data/Stats/sorted/limited/AuthUser requests per snapshot are answered by both instances and compared with the model of the synchronised cache",
@@ -327,7 +327,7 @@ REGISTRY = {
         "assumptions": QUERY_ASSUMPTIONS + ["non-UTF-8 bytes are not generated (they are replaced by U+FFFD on export)"],
     },
     "C13": {
-        "lean_modules": ["C13"],
+        "lean_modules": ["C13", "C13Run"],
         "run": worldfam.run_c13,
         "rule": "traces of 4-25 events over {time passes d seconds, update tick, backend switched ok/refusing/garbage/error code/closing early/bad header/truncating, client data query, sites query} on a real Peer wired to a scripted backend, "
                 "1-3 source addresses (dead ones first/last/between), settings grid over UpdateInterval/StaleBackendTimeout/IdleTimeout/IdleInterval; after every event status, data presence, idling, error count, last_online/last_update ages, "
@@ -336,7 +336,7 @@ REGISTRY = {
         "assumptions": ["virtual clock (overlay patch of currentUnixTime), whole seconds", "BackendKeepAlive off, MaxParallelPeerConnections 1 (serial init)", "fallback addresses are not part of the model: 12 (thorough 150) histories with fallback addresses are judged by the property statements evaluated on the implementation state only; HTTP backends are not exercised"],
     },
     "C12": {
-        "lean_modules": ["C12"],
+        "lean_modules": ["C12", "C12Seq"],
         "run": worldfam.run_c12,
         "rule": "histories of 3-16 rounds on a real Peer: 0-3 additions/removals of host and service comments and downtimes per round (ids monotonically increasing with gaps beyond 8 bit, removing the newest / the oldest / everything), then an update tick; "
                 "after each round GET comments, GET downtimes and the comments/downtimes id lists of hosts and services are compared with Lmd.updateDelta (maxIdOrSizeChanged, syncEntries, buildIdLists)",
@@ -353,7 +353,7 @@ REGISTRY = {
         "assumptions": ["virtual clock, whole seconds", "MaxParallelPeerConnections 1", "Icinga2 object-count reload is not modelled"],
     },
     "C11": {
-        "lean_modules": ["C11"],
+        "lean_modules": ["C11", "C11Seq"],
         "run": worldfam.run_c11,
         "rule": "histories of 2-5 rounds on a real Peer: backend restarts with a replaced object set (program_start / pid change), object count changes without restart (contact, host group, timeperiod added), restarts without changes; "
                 "the rebuild or the update that detects it fails at backend query 0-15 in modes closing early / garbage / error code / truncated; all tables are read after every tick and compared with Lmd.tick / initAllTables, "
